@@ -312,6 +312,7 @@ def monitor(case, obs):
   flat = _flatten(obs)
   # ---- bookkeeping: calls, posts, acceptance
   req_pos = {}
+  req_dl = {}
   posts = collections.defaultdict(list)       # c -> [(pos, slice, kind)]
   rejected = set()
   expired_at = {}
@@ -320,6 +321,7 @@ def monitor(case, obs):
     if e[0] == 'api' and e[1] == 'req':
       cur = e[2]
       req_pos[cur] = (p, k)
+      req_dl[cur] = e[3] if len(e) > 3 else None
     elif e[0] == 'api' and e[1] == 'req-ret':
       cur = None
     elif e[0] == 'api' and e[1] == 'expire':
@@ -360,6 +362,8 @@ def monitor(case, obs):
     # a ping queued at t that the peer did not answer by t + 5 s
     for p, (k, e) in enumerate(flat):
       if e[0] == 'q' and e[1] == 'put' and e[2] == 65:
+        if any(cp < p for cp in closes) or (k > 0 and sl[k - 1]['state'] == 'Closed'):
+          continue                 # queued by a transport that was already closed: nothing left to detect
         t = sl[k]['t']
         answered = False
         other = False
@@ -389,6 +393,16 @@ def monitor(case, obs):
         if early:
           v.append(('ping-timeout-early', 'transport closed at tick %s although the ping of tick %s had 5 s' % (sl[early[0]]['t'], t)))
   failures.sort()
+  # ThriftMux: a shutdown while _OpenImpl waits for the first Rping whose frame was already read: the late ar.set() of
+  # _OnPingResponse overrides the shutdown's exception, _OpenImpl completes and sets _state = Open on the dead transport
+  race = None
+  if mux:
+    for (p, k, what) in failures:
+      in_open = any(e[0] == 'api' and e[1] == 'open' for e in sl[k]['ev']) or \
+          (k > 0 and sl[k - 1]['open'] and sl[k - 1]['open'][-1] == 'pending')
+      if in_open and any(sl[j]['state'] == 'Open' for j in range(k, len(sl))):
+        race = (k, what)
+        break
   for (p, k, what) in failures:
     end = sl[k]
     need = inflight_at(p)
@@ -439,6 +453,8 @@ def monitor(case, obs):
       continue
     if not mux and inflight_at(rp):
       continue
+    if req_dl.get(c) is not None and req_dl[c] <= 0:
+      continue                     # its deadline had already passed: it is answered with a time-out, not carried
     if not mux and [x for x in req_pos if req_pos[x][0] < rp and x not in rejected and not posts.get(x)]:
       continue                     # a call killed by Close() earlier never answers: the transport was not idle by our accounting
     # what happened to the request's bytes
@@ -500,6 +516,13 @@ def monitor(case, obs):
       horizon = closed_at[0] if closed_at else obs['end']
       if horizon - pts[-1] > 40 * TPS:
         v.append(('ping-overdue', 'open since/last ping at tick %s, no ping by tick %s' % (pts[-1], horizon)))
+  if race is not None:
+    dependent = ('reports-open-after-failure', 'fault-signal-twice', 'open-idle-but-unusable', 'ping-interval', 'ping-overdue')
+    v = [x for x in v if x[0] not in dependent]
+    v.append(('mux/open-after-shutdown-during-initial-ping',
+              'connection failure (%s) while Open() waited for the first Rping: the transport was shut down (fault raised) '
+              'and then reported Open again with dead send/receive loops; requests are accepted and never sent until the '
+              'next ping times out' % race[1]))
   return v
 
 
@@ -667,6 +690,8 @@ def mux_labels(obs):
       elif t == 'arwait':
         if not e[1]:
           labels.append('Mux.MPingTimeout')
+      elif t == 'arget':
+        labels.append('Mux.MOResume')
       elif t == 'w':
         k = e[1]
         if k == 'open-begin':
